@@ -170,6 +170,9 @@ def spec_builtin(I, st, name, args, kwargs, node):
         from . import asyncio_model
         which = node.args[0].value if node.args else "time"
         return asyncio_model.clock_value(I, st, which, old=st.in_old and st.old_heap is None)
+    if name == "stages_in_order":
+        from . import asyncio_model
+        return mkbool(asyncio_model.stages_in_order(I, st, node.args[0].value, args[1], args[2:]))
     if name == "log_factory_restored":
         from . import asyncio_model
         return mkbool(asyncio_model.log_factory_is_entry(I, st))
